@@ -59,6 +59,14 @@ CmdSimple(c, v) ==
        [] c = "speed" -> pSpeed' = v /\ pDelay' = 0 /\ UNCHANGED <<pTick, pReset, ownPend>>
   /\ UNCHANGED <<cst, qt, ticking, speed, tw, shT, shF, shTicking, apc, acbN, rpc, rT, spc, sched, firedNow, cb, nrd>>
 
+\* start / pause written while a callback is running, after it has read its command slots: read by the next callback
+CmdMid(c) ==
+  /\ ~Racy /\ ncmd < MaxCmd /\ spc = "idle" /\ mon.fuzzy = 0 /\ apc \in {"pub", "pub_mid"} /\ rpc = "idle" /\ ncmd' = ncmd + 1
+  /\ act' = <<"Cmd", c, 0, 0>>
+  /\ ev' = [a |-> "cmd", c |-> c, v |-> 0, w |-> 0, mid |-> TRUE]
+  /\ pTick' = IF c = "start" THEN "on" ELSE "off"
+  /\ UNCHANGED <<pSpeed, pReset, ownPend, pDelay, cst, qt, ticking, speed, tw, shT, shF, shTicking, apc, acbN, rpc, rT, spc, sched, firedNow, cb, nrd>>
+
 \* set_speed with a zero-length tween that starts d frames of audio time from now (same command slot as "speed")
 CmdSpeedIn(v, d) ==
   /\ ~OwnTime /\ ncmd < MaxCmd /\ spc = "idle" /\ apc = "idle" /\ rpc = "idle" /\ ncmd' = ncmd + 1
@@ -206,6 +214,7 @@ APubFracAndRun ==
   /\ UNCHANGED <<ticking, pSpeed, pTick, pReset, ownPend, pDelay, shT, shTicking, acbN, rpc, rT, spc, ncmd, nrd>>
 
 INext == \/ \E c \in {"start", "pause"} : CmdSimple(c, 0)
+         \/ \E c \in {"start", "pause"} : CmdMid(c)
          \/ \E v \in Speeds : CmdSimple("speed", v)
          \/ \E v \in Speeds, w \in Targets : CmdSpeedAt(v, w)
          \/ \E v \in Speeds, d \in Delays : CmdSpeedIn(v, d)
